@@ -234,11 +234,20 @@ func c11Elig(feature string, th *int32, p *c11P) string {
 	if th == nil {
 		return "the pod is not best-effort and the policy has no priority threshold"
 	}
-	if p.Prio == nil {
-		return ""
+	// the pod's priority in koordinator's documented sense (apis/extension GetPodPriorityValueWithDefault): a non-zero
+	// spec.priority as it is; an absent or zero one stands for the default of the pod's koordinator priority class,
+	// which without a priority-class label follows from the QoS (LS/LSR/LSE/SYSTEM: koord-prod 9500)
+	prio, how := int32(0), ""
+	switch {
+	case p.Prio != nil && *p.Prio != 0:
+		prio = *p.Prio
+	case p.QoS == "LS" || p.QoS == "LSR" || p.QoS == "LSE" || p.QoS == "SYSTEM":
+		prio, how = 9500, " (spec.priority absent or 0: default of the class koord-prod its QoS implies)"
+	default:
+		return "" // no QoS class either: what priority such a pod has is left open
 	}
-	if *p.Prio > *th {
-		return fmt.Sprintf("the pod is not best-effort and its priority %d is above the threshold %d", *p.Prio, *th)
+	if prio > *th {
+		return fmt.Sprintf("the pod is not best-effort and its priority %d%s is above the threshold %d", prio, how, *th)
 	}
 	if !p.Enabled {
 		return "the pod is not best-effort and eviction is not enabled on it"
@@ -278,7 +287,7 @@ func c11MayPrecede(feature string, a, b *c11P) (ok bool, level string) {
 			return ea < eb, "eviction-priority"
 		}
 	}
-	if a.Prio == nil || b.Prio == nil {
+	if a.Prio == nil || b.Prio == nil || *a.Prio == 0 || *b.Prio == 0 { // absent or 0: stands for a class default, not an order key the statement defines
 		return true, ""
 	}
 	if *a.Prio != *b.Prio {
@@ -766,6 +775,10 @@ func c11Kinds() map[string]c11P {
 		"be-only-alloc": {QoS: "BE", Prio: batch, Enabled: true, Policy: c11Str(`["` + c11FAlloc + `"]`)},
 		"be-only-be":    {QoS: "BE", Prio: batch, Enabled: true, Policy: c11Str(`["` + c11FBE + `"]`)},
 		"be-nilprio":    {QoS: "BE", Enabled: true},
+		// spec.priority 0 is what the Priority admission plugin writes for a pod without a PriorityClass; koordinator then
+		// takes the default of the class the QoS implies (LS: koord-prod)
+		"ls-prio0":   {QoS: "LS", Prio: c11I32(0), Enabled: true},
+		"ls-nilprio": {QoS: "LS", Enabled: true},
 	}
 }
 
@@ -806,8 +819,8 @@ func c11EParts(env *mc.Env) []c11EPart {
 	un := []*string{nil}
 	evp2 := []*string{nil, c11Str("-1")}
 	evp3 := []*string{nil, c11Str("-1"), c11Str("5")}
-	all := pick("be", "be-noevict", "mid", "mid-noevict", "prod", "none", "be-only-alloc", "be-only-be", "be-nilprio")
-	core := pick("be", "be-noevict", "mid", "prod", "none", "be-only-alloc")
+	all := pick("be", "be-noevict", "mid", "mid-noevict", "prod", "none", "be-only-alloc", "be-only-be", "be-nilprio", "ls-prio0", "ls-nilprio")
+	core := pick("be", "be-noevict", "mid", "prod", "none", "be-only-alloc", "ls-prio0")
 	small := pick("be", "mid", "none")
 	tiny := pick("be", "mid")
 	var parts []c11EPart
